@@ -121,5 +121,7 @@ pub fn spec_c02() -> PropSpec {
         tape_len: 450,
         make: || vec![Box::new(super::c06::Aux(Box::new(ValueOracle::new()))), Box::new(DurStats::new())],
         nt_rule: "",
+        engine: "seq",
+        runner: None,
     }
 }
